@@ -280,6 +280,9 @@ func (c *Ctx) Expired() bool {
 	return false
 }
 
+// Remaining is the time left until the internal deadline.
+func (c *Ctx) Remaining() time.Duration { return time.Until(c.dl) }
+
 // Cap records that some bound was hit: the run is not exhaustive.
 func (c *Ctx) Cap(desc string) {
 	c.mu.Lock()
